@@ -237,10 +237,17 @@ package fscache
 //@   at_call Filespace.ReadDir requires ($recv == c.bufferFS || $recv == c.remoteFS) && $0 == cleanPath(old(src))
 //@   ensures rr.1 != nil && br.1 != nil ==> err != nil && len(result) == 0
 //@   loop 1 invariant -1 <= $i && $i < len(bufferDirs) && len(result) >= len(remoteDirs)
+//@   loop 1 invariant forall(k, 0 <= k && k < len(remoteDirs) ==> result[k] == remoteDirs[k]) && forall(k, len(remoteDirs) <= k && k < len(result) ==> forall(j, 0 <= j && j < len(remoteDirs) ==> Name(result[k]) != Name(remoteDirs[j])))
 //@   loop 1 invariant (arr(result) != arr(bufferDirs) || len(bufferDirs) == 0) && (arr(result) == arr(remoteDirs) ==> off(result) == off(remoteDirs)) && (arr(bufferDirs) == 0 || allocated(arr(bufferDirs))) && (arr(remoteDirs) == 0 || allocated(arr(remoteDirs)))
 //@   loop 1 invariant forall(k, 0 <= k && k < len(bufferDirs) ==> bufferDirs[k] != nil) && forall(k, 0 <= k && k < len(remoteDirs) ==> remoteDirs[k] != nil)
 //@   loop 2 invariant -1 <= $i && $i < len(remoteDirs) && bnode != nil && len(result) >= len(remoteDirs)
+//@   loop 2 invariant forall(k, 0 <= k && k < len(remoteDirs) ==> result[k] == remoteDirs[k]) && forall(k, len(remoteDirs) <= k && k < len(result) ==> forall(j, 0 <= j && j < len(remoteDirs) ==> Name(result[k]) != Name(remoteDirs[j])))
+//@   loop 2 invariant forall(j, 0 <= j && j <= $i ==> Name(bnode) != Name(remoteDirs[j]))
 //@   loop 2 invariant (arr(result) != arr(bufferDirs) || len(bufferDirs) == 0) && (arr(result) == arr(remoteDirs) ==> off(result) == off(remoteDirs)) && (arr(bufferDirs) == 0 || allocated(arr(bufferDirs))) && (arr(remoteDirs) == 0 || allocated(arr(remoteDirs)))
 //@   loop 2 invariant forall(k, 0 <= k && k < len(bufferDirs) ==> bufferDirs[k] != nil) && forall(k, 0 <= k && k < len(remoteDirs) ==> remoteDirs[k] != nil)
 //@   ensures !(rr.1 != nil && br.1 != nil) ==> err == nil
 //@   ensures err == nil ==> len(result) >= len(rr.0)
+// the merge: the remote's entries first, then only buffer entries under names the remote does not list
+//@   ensures err == nil ==> forall(k, 0 <= k && k < len(rr.0) ==> result[k] == rr.0[k])
+//@   ensures err == nil ==> forall(k, len(rr.0) <= k && k < len(result) ==> forall(j, 0 <= j && j < len(rr.0) ==> Name(result[k]) != Name(rr.0[j])))
+//@   loop 1 invariant remoteDirs == rr.0
